@@ -207,32 +207,9 @@ Definition nontrivial_case (inp : list Z) : bool :=
   let '(cfg, ops) := decode inp in
   existsb op_mutates ops && existsb (fun rv => view_live (snd rv)) (run_obs cfg [] ops).
 
-(* known-finding shapes: 1 = the drift clause fails on a node whose current report has no
-   Status.UpdateTime (the cache keeps the previous report's updateTime) *)
-Fixpoint sticky_from (cfg : config) (c : cache) (ops : list op) (obs : list opobs) : bool :=
-  match ops, obs with
-  | o :: t, (r, view) :: obs' =>
-    let c' := step cfg c o in
-    if negb (nodes_code cfg c' universe view =? 0) then
-      (* every node whose view fails does so by clause 1 with an untimed current report *)
-      forallb (fun kv =>
-        let n := alookup (fst kv) c' in
-        let code := node_code cfg n (snd kv) in
-        (code =? 0) ||
-        ((code =? 1) && match spec_metric n with
-                        | Some m => negb (is_some (m_ut m)) | None => false end))
-        (combine universe view)
-    else if negb (op_code cfg c o r view =? 0) then false
-    else sticky_from cfg c' t obs'
-  | _, _ => false
-  end.
-Definition finding_sig (inp obs : list Z) : Z :=
-  let '(cfg, ops) := decode inp in
-  match parse_obs (length ops) obs with
-  | Some o => if negb (prop_code cfg ops o =? 0) && sticky_from cfg [] ops o then 1 else 0
-  | None => 0
-  end.
-
+(* no known-finding shape is left for this property (the retained-updateTime defect, formerly
+   sig 1, is fixed in /repo 56625eb) *)
+Definition finding_sig (inp obs : list Z) : Z := 0.
 
 (* ------------------------------------------------------------------ stream "float" *)
 (* direct boundary grid for the two float64 computations.
